@@ -42,6 +42,16 @@ func verbatimC07(c *Ctx) {
 				seen[kind]++
 				key := fmt.Sprintf("%s: %s #%d", name, kind, seen[kind])
 				why, st := traceVerbatim(p, x, kind, 0)
+				// the conversion into the kind itself must not change the numeric kind
+				if cv, isConv := in.(*ssa.Convert); isConv && st == 0 {
+					fb, _ := cv.X.Type().Underlying().(*types.Basic)
+					tb, _ := cv.Type().Underlying().(*types.Basic)
+					if fb != nil && tb != nil && fb.Kind() != tb.Kind() && fb.Info()&types.IsNumeric != 0 && tb.Info()&types.IsNumeric != 0 {
+						if !(fb.Kind() == types.Int64 && tb.Kind() == types.Float64 && kind == "NumberValue") {
+							why, st = fmt.Sprintf("a %s is converted to the %s underlying %s", fb.Name(), tb.Name(), kind), 1
+						}
+					}
+				}
 				switch st {
 				case 0:
 					c.OK("C07.verbatim", key, in.Pos(), why)
